@@ -2,7 +2,7 @@
 
 `field_sources(body, struct_def)` finds the literal of `struct_def` in a parser function and, for every field, follows the
 function's local dataflow (let initialisers, assignments, mutating method calls on `mut` locals) back to the
-`Entry::get_ava_*(Attribute::X)` reads it depends on.  A rule compares the resulting set with the frozen table: a field fed by a
+`Attribute::X` constants it depends on (the `Entry::get_ava_*(Attribute::X)` reads, directly or through a helper).  A rule compares the resulting set with the frozen table: a field fed by a
 different attribute (or by an extra one — a fallback chain that now passes through a sibling field) parses the stored
 configuration into the wrong grant.  Only resolved def-paths are compared; local names, order and formatting are irrelevant.
 """
@@ -35,15 +35,15 @@ def _local_defs(body):
 
 
 def _reads(e, defs, seen):
-    """Attribute variants read through Entry::get_ava_* in `e`, following locals."""
+    """Attribute variants mentioned in `e`, following locals."""
     out = set()
     for n in walk(e):
-        if n.get("e") == "mcall" and ("::get_ava" in callee_of(n)):
-            for a in n.get("args", []):
-                d = def_of(unwrap(a))
-                if d.startswith(ATTR):
-                    out.add(d[len(ATTR):])
-        elif n.get("e") == "path":
+        if n.get("e") == "path":
+            d = n.get("res", {}).get("def", "")
+            if d.startswith(ATTR):
+                # any mention counts (a read through Entry::get_ava_*, or through a helper that is handed the attribute)
+                out.add(d[len(ATTR):])
+                continue
             loc = n.get("res", {}).get("local")
             if loc is not None and loc in defs and loc not in seen:
                 seen.add(loc)
